@@ -407,6 +407,26 @@ func main() {
 				}
 			})
 		}
+		// pinned hand-built nodes for the encode leg: positions with line and column zero but an
+		// offset (kept), the zero position (left out), an empty non-nil slice
+		var pinned []ecase
+		for _, n := range []syntax.Node{
+			&syntax.Lit{ValuePos: syntax.NewPos(7, 0, 0), ValueEnd: syntax.NewPos(8, 0, 0), Value: "x"},
+			&syntax.Lit{ValuePos: syntax.NewPos(0, 0, 0), ValueEnd: syntax.NewPos(1, 1, 2), Value: "y"},
+			&syntax.Comment{Hash: syntax.NewPos(4294967295, 262144, 16384), Text: "c"},
+			&syntax.Word{Parts: []syntax.WordPart{&syntax.Lit{ValuePos: syntax.NewPos(3, 1, 4), ValueEnd: syntax.NewPos(4, 1, 5), Value: "z"}}},
+			&syntax.Stmt{Comments: []syntax.Comment{}, Position: syntax.NewPos(9, 0, 0), Negated: true, Redirs: []*syntax.Redirect{}},
+		} {
+			st.Trees++
+			if b, ok := roundTrip(n, fmt.Sprintf("<hand-built %T>", n), "-", st, fail); ok {
+				before := len(ec)
+				addE(n, b, fmt.Sprintf("<hand-built %T>", n), "-")
+				if len(ec) > before {
+					pinned = append(pinned, ec[len(ec)-1])
+					ec = ec[:len(ec)-1]
+				}
+			}
+		}
 		// ---- Decode on mutated documents
 		var dc []dcase
 		emitDoc := func(doc []byte) {
@@ -486,7 +506,7 @@ func main() {
 		if len(ec) > ecases {
 			ec = ec[:ecases]
 		}
-		for _, c := range ec {
+		for _, c := range append(pinned, ec...) {
 			hx.Emit(map[string]any{"ecase": c})
 		}
 		// keep all hand documents, sample the rest
